@@ -155,7 +155,9 @@ Qed.
 
 (* the program and iterators of a filter *)
 Definition wf_prog (f : tfilt) (p : tprog) : bool :=
-  tp_try p && wf_b (stream_iters (t_num f)) (stream_iters (t_den f)) (p_terms (tp_prog p)).
+  let bs := stream_iters (t_num f) in let az := stream_iters (t_den f) in
+  (tp_try p || is_nil (snd (aterms bs az (p_terms (tp_prog p)) p_zero))) &&
+  wf_b bs az (p_terms (tp_prog p)).
 
 Theorem run_tv_wf S (f : tfilt) (p : tprog) memory zero fuel :
   wf_prog f p = true ->
@@ -166,7 +168,9 @@ Theorem run_tv_wf S (f : tfilt) (p : tprog) memory zero fuel :
 Proof.
   unfold wf_prog. intro H. apply andb_true_iff in H. destruct H as [Ht Hw].
   destruct (wf_b_ok _ _ _ Hw) as (Hok & Hnd & Hcl).
-  exact (run_tv_spec S _ _ f p memory zero fuel Ht Hok Hnd Hcl).
+  refine (run_tv_spec S _ _ f p memory zero fuel _ Hok Hnd Hcl).
+  apply orb_true_iff in Ht. destruct Ht as [Ht|Ht]; [left; exact Ht|right].
+  destruct (snd (aterms _ _ _ _)); [reflexivity|discriminate].
 Qed.
 
 Theorem read_once S (f : tfilt) (p : tprog) memory zero fuel :
